@@ -29,6 +29,10 @@ def _first_axis_upper(sl) -> Optional[str]:
     if isinstance(first, ast.Slice) and first.step is None and isinstance(first.upper, ast.Name) \
             and (first.lower is None or (isinstance(first.lower, ast.Constant) and first.lower.value == 0)):
         return first.upper.id
+    if isinstance(first, ast.Slice) and first.step is None and first.upper is not None and not isinstance(first.upper, ast.Constant) \
+            and (first.lower is None or (isinstance(first.lower, ast.Constant) and first.lower.value == 0)) \
+            and any(isinstance(x, ast.Name) for x in ast.walk(first.upper)):
+        return ast.unparse(first.upper)      # `[: rows.shape[0]]`, `[: len(chunk)]`: the text of the bound
     return None
 
 
@@ -54,17 +58,21 @@ def analyse(project: Project, fi: FunctionInfo) -> List[dict]:
         if isinstance(n, ast.Name) and isinstance(n.ctx, ast.Store):
             stores.setdefault(n.id, []).append(n)
     hits = []
-    for n in ast.walk(f):
-        if not (isinstance(n, ast.Assign) and len(n.targets) == 1 and isinstance(n.targets[0], ast.Name) and isinstance(n.value, ast.Call)):
-            continue
-        fn = n.value.func
-        nm = fn.attr if isinstance(fn, ast.Attribute) else getattr(fn, "id", "")
-        B = n.targets[0].id
-        if nm not in ALLOC or len(stores.get(B, [])) != 1:
-            continue
-        alloc_loops = loops_of(n)
+    # a scratch array may also be handed in by the caller (allocated once per call there): a parameter that is written
+    # through `out=` / a slice store in a loop of this function and never rebound
+    a_ = f.args
+    cands = [(n, n.targets[0].id) for n in ast.walk(f)
+             if isinstance(n, ast.Assign) and len(n.targets) == 1 and isinstance(n.targets[0], ast.Name) and isinstance(n.value, ast.Call)
+             and (n.value.func.attr if isinstance(n.value.func, ast.Attribute) else getattr(n.value.func, "id", "")) in ALLOC
+             and len(stores.get(n.targets[0].id, [])) == 1]
+    cands += [(f, p_.arg) for p_ in a_.posonlyargs + a_.args + a_.kwonlyargs if p_.arg not in stores and p_.arg not in ("self", "cls")]
+    for n, B in cands:
+        if n is f and not any(isinstance(k_, ast.keyword) and k_.arg == "out" and any(
+                isinstance(x, ast.Name) and x.id == B for x in ast.walk(k_.value)) for k_ in ast.walk(f)):
+            continue      # a parameter only counts as a scratch buffer when it is an `out=` target somewhere
+        alloc_loops = loops_of(n) if n is not f else []
         for lp in [x for x in ast.walk(f) if isinstance(x, (ast.For, ast.While)) and x not in alloc_loops
-                   and x.lineno > n.lineno and all(a in loops_of(x) or True for a in alloc_loops)]:
+                   and (n is f or x.lineno > n.lineno) and all(a in loops_of(x) or True for a in alloc_loops)]:
             if any(lp in loops_of(other) for other in [lp]):
                 pass
             inside = [x for st in lp.body for x in ast.walk(st)]
@@ -91,7 +99,11 @@ def analyse(project: Project, fi: FunctionInfo) -> List[dict]:
             if not writes or None in ms or len(ms) != 1:
                 continue
             m = next(iter(ms))
-            varies = any(isinstance(x, ast.Name) and x.id == m and isinstance(x.ctx, ast.Store) for x in inside)
+            try:
+                m_names = {x.id for x in ast.walk(ast.parse(m, mode="eval")) if isinstance(x, ast.Name)}
+            except SyntaxError:
+                m_names = {m}
+            varies = any(isinstance(x, ast.Name) and x.id in m_names and isinstance(x.ctx, ast.Store) for x in inside)
             if not varies:
                 continue
             whole = [r for r, rm in reads if rm != m]
@@ -101,7 +113,7 @@ def analyse(project: Project, fi: FunctionInfo) -> List[dict]:
                 while expr is not None and not isinstance(expr, ast.stmt) and not isinstance(expr, (ast.BinOp, ast.Call)):
                     expr = parents.get(id(expr))
                 hits.append(dict(node=r, buffer=B, m=m,
-                                 why=f"`{B}` is a scratch buffer allocated once (line {n.lineno}) and refilled in every round of the loop "
+                                 why=f"`{B}` is a scratch buffer allocated once ({'by the caller' if n is f else 'line ' + str(n.lineno)}) and refilled in every round of the loop "
                                      f"only up to row `{m}`, but `{ast.unparse(expr if expr is not None else r)[:60]}` reads all of it: in a "
                                      f"round with a smaller `{m}` (the last, short block) the rows beyond `{m}` still hold the previous "
                                      f"round's values"))
@@ -223,7 +235,9 @@ def positive_examples() -> dict:
         raise AnalysisError("BUF-STALE clean example `masked_fill_after_reset` was flagged")
     if not got.get("blocked_sum_reads_whole_buffer"):
         raise AnalysisError("BUF-STALE positive example was not found (the rule is not working)")
-    for nme in ("blocked_sum_reads_written_part", "buffer_filled_whole"):
+    if not got.get("threshold_rows_reads_whole_scratch"):
+        raise AnalysisError("BUF-STALE positive example (scratch array handed in by the caller) was not found")
+    for nme in ("blocked_sum_reads_written_part", "buffer_filled_whole", "threshold_rows_reads_written_part"):
         if got.get(nme):
             raise AnalysisError(f"BUF-STALE clean example `{nme}` was flagged")
     return got
